@@ -160,10 +160,15 @@ def check_c04(tier, seed):
                     cases.append(f'(spec_empty, {C.clist([MS.c_tok(t) for t in r2])}, {MS.TreePrinter(P).mal(tree2)}, {C.cjv(res2)})')
             # layouts
             if res is not None and not pv and not stream.startswith('shipped') and len(decls) >= 2:
+                # for the layouts every association gets an associations block of its own, so that associations (same-named
+                # ones among them) can end up in different files
+                ldecls = list(decls)
+                if len(spec['associations']) >= 2:
+                    ldecls = decls[:-1] + [[MS.t_kw('associations'), MS.t_sym('{')] + MS.p_assoc(a) + [MS.t_sym('}')] for a in spec['associations']]
                 for layout in range(2):
-                    k = rng.randint(1, min(3, len(decls) - 1))
-                    cuts = sorted(rng.sample(range(1, len(decls)), k))
-                    parts = [decls[i:j] for i, j in zip([0] + cuts, cuts + [len(decls)])]
+                    k = rng.randint(1, min(3 if layout == 0 else 5, len(ldecls) - 1))
+                    cuts = sorted(rng.sample(range(1, len(ldecls)), k))
+                    parts = [ldecls[i:j] for i, j in zip([0] + cuts, cuts + [len(ldecls)])]
                     files, root = {}, []
                     prev_file = None                      # a file part that ends the root so far: the next file part may be nested in it
                     for pi, part in enumerate(parts):
@@ -330,6 +335,51 @@ def check_c17(tier, seed):
                                            (f's{i}.mal', f's{i}.mal.mal'), (f'sub{i}/t{i}.mal', f't{i}.mal'), (f'dat{i}a.mal', f'dat{i}.mal')])
                 write(scratch, vname, render_junk([t for d in decls[:cut] for t in d]))
                 variants.append(('include-similar-name-' + k, [('kw', 'include'), ('str', vname), ('kw', 'include'), ('str', dname)], m, dname))
+            # ... and nested: the damaged file's name occurs inside the name of the (valid) file that includes it
+            if len(decls) >= 2 and i % 2 == 1:
+                cut = rng.randrange(1, len(decls))
+                k, m = mutate(rng, [t for d in decls[cut:] for t in d])
+                oname, iname = rng.choice([(f'sub{i}/core{i}.mal', f'core{i}.mal'), (f'meta{i}data{i}.mal', f'data{i}.mal'),
+                                           (f'main{i}.mal', f'in{i}.mal'), (f'x{i}.mal.mal', f'x{i}.mal')])
+                write(scratch, oname, render_junk([t for d in decls[:cut] for t in d] + [('kw', 'include'), ('str', iname)]))
+                variants.append(('include-name-inside-name-' + k, [('kw', 'include'), ('str', oname)], m, iname))
+            # two languages in two directories with equally named files, loaded one after the other in this process: the
+            # second one's own (damaged) included file is the one that counts
+            if len(decls) >= 2 and i % 4 == 2:
+                cut = rng.randrange(1, len(decls))
+                good = [t for d in decls[cut:] for t in d]
+                rootk = [t for d in decls[:cut] for t in d] + [('kw', 'include'), ('str', 'parts.mal')]
+                for dmg in range(3):
+                    k, m = mutate(rng, good)
+                    dtext = render_junk(m)
+                    _, dle, dpe, _, _ = antlr_run(dtext)
+                    if dle + dpe == 0:
+                        continue
+                    write(scratch, f'dirA{i}/parts.mal', render_junk(good))
+                    write(scratch, 'parts.mal', render_junk(good))      # ... and next to the sources loaded earlier in this process
+                    fa = write(scratch, f'dirA{i}/root.mal', render_junk(rootk))
+                    write(scratch, f'dirB{i}/parts.mal', dtext)
+                    fb = write(scratch, f'dirB{i}/root.mal', render_junk(rootk))
+                    hv = []
+                    try:
+                        with_timeout(lambda: LanguageGraph.from_mal_spec(fa))
+                    except Exception:
+                        pass
+                    try:
+                        with_timeout(lambda: LanguageGraph.from_mal_spec(fb))
+                        hv.append('LanguageGraph.from_mal_spec returned a result for a source with syntax errors (loaded after a language with equally named files in another directory)')
+                    except Hang:
+                        hv.append('LanguageGraph.from_mal_spec did not terminate within 20 s')
+                    except Exception as e:
+                        # (the random specifications need not be meaningful languages: a rejection by the compiler is what counts)
+                        if type(e).__name__ != 'MalCompilerError':
+                            hv.append('LanguageGraph.from_mal_spec compiled a source with syntax errors (loaded after a language with equally named '
+                                      f'files in another directory): the compiler returned a specification, building the language graph then raised {type(e).__name__}')
+                    kinds['two-directories-' + k] = kinds.get('two-directories-' + k, 0) + 1
+                    if hv:
+                        metas.append({'kind': 'two-directories-' + k, 'erroneous': True, 'lexer_errors': dle, 'prop_viol': hv, 'text': render_junk(rootk),
+                                      'included': dtext, 'history': 'dirA/root.mal (valid parts.mal) loaded first, then dirB/root.mal (damaged parts.mal)'})
+                    break
             # a damaged file at the bottom of a chain of 9-13 includes (each file of the chain declares nothing itself)
             if i % 5 == 0:
                 depth = rng.randint(9, 13)
